@@ -18,6 +18,8 @@ import (
 	"io"
 	"net"
 	"sync"
+
+	"github.com/samaritan-proxy/samaritan/utils/verifpoint"
 )
 
 type session struct {
@@ -105,6 +107,7 @@ func (s *session) loopWrite() {
 		case req = <-s.processingReqs:
 		}
 
+		verifpoint.HitArg("redis.session.write.before-wait", s)
 		req.Wait()
 		// TODO(kirk91): abstract response
 		resp := req.Response()
